@@ -71,6 +71,8 @@ def plan(seed, subbatch):
         s = sample_spec(cfg, cfg.choice(classes), max_period=8, round_values=False)
         if tf and (kind == "indicator" or cfg.random() < 0.6):
             s["common"]["timeframe"] = tf
+            if kind == "indicator" and cfg.random() < 0.3:
+                s["common"]["timeframe_fill"] = True
         from ..catalogue import helper_collision, member_name
         nm = member_name(s)
         if nm in names or any(helper_collision(s, o) for o in members):
@@ -81,6 +83,7 @@ def plan(seed, subbatch):
     warm = max(warmup_estimate(m) for m in members)
     per_bucket = max(1, interval // base_s)
     life_candles = warm + cfg.randint(2, 30 if per_bucket == 1 else 10)
+    fill_hex = kind == "hexital" and tf is not None and cfg.random() < 0.3
     lifespan_s = interval * life_candles
     if subbatch == "calm":
         # regular grid: the window slides once more candles than the lifespan holds have arrived
@@ -99,7 +102,7 @@ def plan(seed, subbatch):
     pre, ops, fired, rows = planlib.stream_and_schedule(seed, subbatch, n, base_s, start, faults, burst, 0.0,
                                                         preload=cfg.choice((0, 0, 1, 5)))
     return {"format": 1, "property": ID, "seed": seed, "subbatch": subbatch,
-            "config": {"kind": kind, "members": members, "lifespan_s": lifespan_s, "base_s": base_s},
+            "config": {"kind": kind, "members": members, "lifespan_s": lifespan_s, "base_s": base_s, "fill": fill_hex},
             "ops": [{"op": "new", "preload": pre}] + ops, "fired": dict(fired)}
 
 
@@ -118,7 +121,7 @@ def _build(cfg, rows, trimmed):
     from datetime import timedelta
 
     inds = [build(m) for m in cfg["members"]]
-    hx = Hexital("sim", mk_candles(rows), inds,
+    hx = Hexital("sim", mk_candles(rows), inds, timeframe_fill=bool(cfg.get("fill")),
                  candles_lifespan=timedelta(seconds=life) if trimmed else None)
     hx.calculate()
     return hx, list(zip(cfg["members"], inds))
